@@ -29,6 +29,81 @@ def rand_value(rng):
     return "%s%d|%d" % (s, n, d)
 
 
+def _q_of_obs(o):
+    """exact rational {n:{neg,mag},d} of a num / float observation (a float is an exact binary rational)"""
+    from fractions import Fraction
+    if o.get("t") == "num":
+        return o["v"]
+    if o.get("t") == "float" and o.get("f") not in (None, "NaN", "inf", "-inf"):
+        fr = Fraction(float(o["f"]))
+
+        def limbs(n):
+            out = []
+            while n:
+                out.append(n % 4096)
+                n //= 4096
+            return out
+        return {"n": {"neg": fr < 0, "mag": limbs(abs(fr.numerator))}, "d": limbs(fr.denominator)}
+    return None
+
+
+def float_list_leg(run, env, thorough):
+    """unit lists over FLOAT values and float-valued database units (semitone): the source and every list unit are
+    evaluated on their own, the list reply is judged on the observed floats by Query.FloatListLaw (whole parts, signs,
+    sum and remainders up to a relative 2^-40)"""
+    sources = {"time": ["sqrt(6.25) hour", "sqrt(2) hour", "exp(3) s", "(0 - sqrt(10)) day", "hypot(3, 4) min", "ln(2) week", "sqrt(1e12) s"],
+               "length": ["sqrt(2) m", "hypot(3, 4) ft", "exp(1) mile", "(0 - sqrt(7)) km"],
+               "ratio": ["2", "1000", "1|3", "-7", "sqrt(2)", "exp(2)", "(0 - sqrt(5))", "12 semitone", "3.5 octave"]}
+    lists = {"time": [["hour", "min"], ["hour", "min", "s"], ["day", "hour", "min", "s"], ["min", "hour"], ["week", "day", "s"], ["s", "ms"]],
+             "length": [["m", "cm", "mm"], ["ft", "inch"], ["mile", "yard", "ft", "inch"], ["km", "m"]],
+             "ratio": [["semitone", "percent"], ["percent", "semitone"], ["octave", "semitone", "percent"], ["dozen", "semitone"], ["semitone", "1"]]}
+    if not thorough:
+        sources = {k: v[:5] for k, v in sources.items()}
+    unit_names = sorted({u for ls in lists.values() for l in ls for u in l})
+    solo = evalkit.run_eval([{"qs": "1 %s" % u if u != "1" else "1"} for u in unit_names] + [{"qs": s} for k in sources for s in sources[k]],
+                            ctx="bundled", shards=1, tag="c09fs")
+    val = {}
+    for q, r in zip(unit_names + [s for k in sources for s in sources[k]], solo):
+        val[q] = _q_of_obs((r.get("obs") or {}).get("raw") or r.get("obs") or {}) if "crash" not in r else None
+    cases = [(s, l) for k in sources for s in sources[k] for l in lists[k] if val.get(s) and all(val.get(u) for u in l)]
+    if len(cases) < 20:
+        raise vlib.ToolError("float-list leg: only %d cases could be prepared" % len(cases))
+    res = evalkit.run_eval([{"qs": "%s -> %s" % (s, ";".join(l))} for s, l in cases], ctx="bundled", shards=2, tag="c09fl")
+    events, kept = [], []
+    for (s, l), r in zip(cases, res):
+        o = r.get("obs") or {}
+        if "crash" in r or o.get("t") != "unitlist":
+            continue
+        ps = [_q_of_obs(e.get("raw") or {}) for e in o.get("list", [])]
+        if any(p is None for p in ps):
+            continue
+        # only cases with a float somewhere: exact lists are the main leg's
+        if not (any((e.get("raw") or {}).get("t") == "float" for e in o.get("list", []))):
+            continue
+        events.append({"q": r["q"], "flist": {"v": val[s], "us": [val[u] for u in l], "ps": ps}})
+        kept.append((s, l, o))
+    if len(events) < 10:
+        raise vlib.ToolError("float-list leg: only %d float list replies" % len(events))
+    verdicts, st = evalkit.judge(events, "Trace_Query", shards=2, tag="c09jfl", env=env, min_per_shard=10)
+    run.cov["states"] += st["distinct"]
+    run.traces(len(events))
+    for i, (s, l, o) in enumerate(kept):
+        run.count()
+        run.nontrivial("%s -> %s" % (s, ";".join(l)))
+        if "REJECT" in verdicts.get(i, set()):
+            run.violation({"engine": "query", "leg": "float-list", "q": "%s -> %s" % (s, ";".join(l))},
+                          "whole parts (all but the last), contributions of v's sign, sum = v and remainders below the unit just used, up to 2^-40",
+                          {"parts": [(e.get("raw") or {}).get("f") or "exact" for e in o.get("list", [])]}, "query")
+    vlib.log("[C09] leg float-list: %d float list replies judged" % len(events))
+    run.sample({"leg": "float-list", "q": "%s -> %s" % (kept[0][0], ";".join(kept[0][1]))})
+    # the rule is not vacuous: a non-whole leading part must be rejected
+    bad = json.loads(json.dumps(events[0]))
+    bad["flist"]["ps"][0] = {"n": {"neg": False, "mag": [5]}, "d": [2]}
+    v2, _ = evalkit.judge([bad], "Trace_Query", shards=1, tag="c09jfls", env=env)
+    if "REJECT" not in v2.get(0, set()):
+        raise vlib.ToolError("self-check: a float list with a non-whole leading part was accepted")
+
+
 def run(tier, seed):
     run = vlib.Run(PROP, tier, seed, "model_checking")
     thorough = tier == "thorough"
@@ -77,6 +152,7 @@ def run(tier, seed):
 
     def corrupt(ev):
         ev["obs"]["list"][1]["raw"]["v"]["n"]["mag"][0] ^= 1
+    float_list_leg(run, env, thorough)
     evalkit.selfcheck_corrupt(run, "90061.5 s -> hour;min;s", corrupt, env=env)
 
     def corrupt2(ev):
